@@ -2,6 +2,7 @@ package main
 
 import (
 	"fmt"
+	"go/token"
 	"regexp"
 	"sort"
 	"strings"
@@ -252,10 +253,43 @@ func condLocaShort(w *World) func() (bool, string) {
 			if _, isParam := ia.X.(*ssa.Parameter); !isParam {
 				continue
 			}
+			// which successor halves the offsets (the short format)?
+			halves := func(start *ssa.BasicBlock, other *ssa.BasicBlock) bool {
+				seen := map[*ssa.BasicBlock]bool{}
+				var visit func(x *ssa.BasicBlock) bool
+				visit = func(x *ssa.BasicBlock) bool {
+					if seen[x] || x == other || x.Dominates(other) {
+						return false
+					}
+					seen[x] = true
+					if !start.Dominates(x) {
+						return false
+					}
+					for _, in := range x.Instrs {
+						if bo, ok := in.(*ssa.BinOp); ok {
+							if c, isC := bconstInt(bo.Y); isC && (bo.Op == token.QUO && c == 2 || bo.Op == token.SHR && c == 1) {
+								return true
+							}
+						}
+					}
+					for _, s2 := range x.Succs {
+						if visit(s2) {
+							return true
+						}
+					}
+					return false
+				}
+				return visit(start)
+			}
+			thenShort := halves(b.Succs[0], b.Succs[1])
+			elseShort := halves(b.Succs[1], b.Succs[0])
 			limit := k
-			switch cmp.Op.String() {
-			case "<=":
-			case "<":
+			switch {
+			case cmp.Op == token.LEQ && thenShort && !elseShort:
+			case cmp.Op == token.LSS && thenShort && !elseShort:
+				limit = k - 1
+			case cmp.Op == token.GTR && elseShort && !thenShort:
+			case cmp.Op == token.GEQ && elseShort && !thenShort:
 				limit = k - 1
 			default:
 				continue
